@@ -15,6 +15,7 @@ func runC03(c *Ctx) {
 	c.Clause("C03.3 final-size contradictions are FINAL_SIZE_ERROR, window overruns FLOW_CONTROL_ERROR, too many gaps an error before anything is stored")
 	c.Clause("C03.4 CRYPTO data is queued only within MaxCryptoStreamOffset and before the stream finished; Finish refuses while data is pending")
 	c.Clause("C03.6 a frame popped from the receive queue is marked last only if the stream was not reset by the peer (no io.EOF after RESET_STREAM)")
+	c.Clause("C03.8 a reset frame that changes the reliable size wakes a blocked reader (unless cancelled locally)")
 	c.Clause("C03.7 a STREAM frame that flow control accepted is queued for the reader unless the stream was cancelled locally, and every successful push wakes the reader")
 	c.NotCovered("gap-list algebra and overlap cutting (byte-level reassembly correctness)")
 	c.NotCovered("Peek, EOF exactly at the final size")
@@ -25,6 +26,7 @@ func runC03(c *Ctx) {
 	c.rule("C03.4", func() { c03Crypto(c) })
 	c.rule("C03.6", func() { c03LastFrameNotAfterReset(c) })
 	c.rule("C03.7", func() { c03AcceptedDataIsQueued(c) })
+	c.rule("C03.8", func() { c03ReliableSizeChangeWakesReader(c) })
 }
 
 // callsValue: call of a function value matching pat.
